@@ -488,12 +488,354 @@ def oracle_strip(ctx, rep, hook):
                           dict(kind="hook", op="ansi.elements", coloured=col, got=el))
 
 
+# ------------------------------------------------------------------ binary level
+
+WORDS = ["foo", "bar", "x=1;", "return", "日本語", "é", "🙂", "a_b", "(1)", "[m", "0", "let", "if",
+         "ｗｉｄｅ", "tab\there", "--", "++", "@@", "end."]
+
+
+def gen_body(rng, long=False):
+    n = rng.randint(0, 6) if not long else rng.randint(10, 18)
+    ws = [rng.choice(WORDS) for _ in range(n)]
+    body = " ".join(ws)
+    if rng.random() < 0.15:
+        body += rng.choice([" ", "  ", "\t"])  # trailing whitespace (git marks it on added lines)
+    return body
+
+
+def gen_diff(rng, long_lines=False, commit=None):
+    """A small git diff as a list of (kind, text): kind in commit/meta/hunk/' '/'-'/'+'/other."""
+    rows = []
+    if commit if commit is not None else rng.random() < 0.4:
+        h = "".join(rng.choice("0123456789abcdef") for _ in range(40))
+        rows += [("commit", "commit " + h), ("other", "Author: A U Thor <a@example.com>"),
+                 ("other", "Date:   Thu Jan 1 00:00:00 1970 +0000"), ("other", ""),
+                 ("other", "    " + gen_body(rng)), ("other", "")]
+    for _ in range(rng.randint(1, 3)):
+        name = rng.choice(["src/a.rs", "b.txt", "dir/c.py", "d e.md", "é.txt", "Makefile"])
+        rows += [("meta", f"diff --git a/{name} b/{name}"), ("meta", "index 1111111..2222222 100644"),
+                 ("meta", f"--- a/{name}"), ("meta", f"+++ b/{name}")]
+        line = rng.randint(1, 90)
+        for _ in range(rng.randint(1, 3)):
+            body = []
+            for _ in range(rng.randint(1, 4)):
+                k = rng.random()
+                if k < 0.3:
+                    body += [(" ", gen_body(rng, long_lines and rng.random() < 0.3))]
+                elif k < 0.6:
+                    body += [("-", gen_body(rng, long_lines and rng.random() < 0.5)) for _ in range(rng.randint(1, 3))]
+                    body += [("+", gen_body(rng, long_lines and rng.random() < 0.5)) for _ in range(rng.randint(0, 3))]
+                elif k < 0.8:
+                    body += [("+", gen_body(rng, long_lines and rng.random() < 0.5)) for _ in range(rng.randint(1, 3))]
+                else:
+                    body += [("-", gen_body(rng)) for _ in range(rng.randint(1, 2))]
+            nm = sum(1 for k, _ in body if k in " -")
+            npl = sum(1 for k, _ in body if k in " +")
+            ctxt = rng.choice(["", "", " fn main() {", " class A:"]) if not long_lines else ""
+            rows.append(("hunk", f"@@ -{line},{nm} +{line},{npl} @@{ctxt}"))
+            rows += body
+            line += nm + rng.randint(1, 30)
+    return rows
+
+
+def sgr(p):
+    return ESC + "[" + p + "m"
+
+
+def colour_rows(rows, scheme, rng):
+    """git-style colourings with git's default palette. `scheme`: per-line | per-marker | per-word |
+    reset0 | ws-error. Context lines are never coloured (color.diff.context = normal)."""
+    reset = sgr("0") if scheme == "reset0" else sgr("")
+    out = []
+    for kind, text in rows:
+        if kind == "meta":
+            out.append(sgr("1") + text + reset)
+        elif kind == "commit":
+            out.append(sgr("33") + text + reset)
+        elif kind == "hunk":
+            i = text.index(" @@") + 3
+            out.append(sgr("36") + text[:i] + reset + text[i:])
+        elif kind in ("-", "+"):
+            col = "31" if kind == "-" else "32"
+            if scheme == "per-line" or scheme == "reset0":
+                out.append(sgr(col) + kind + text + reset)
+            elif scheme == "per-marker":
+                out.append(sgr(col) + kind + reset + (sgr(col) + text + reset if text else ""))
+            elif scheme == "ws-error":
+                core = text.rstrip(" \t")
+                ws = text[len(core):]
+                line = sgr(col) + kind + reset + (sgr(col) + core + reset if core else "")
+                if ws and kind == "+":
+                    line += sgr("41") + ws + reset
+                else:
+                    line += ws
+                out.append(line)
+            else:  # per-word: every word coloured separately, resets in between, some doubled
+                parts = re.split(r"( +)", text)
+                line = sgr(col) + kind + reset
+                for w in parts:
+                    if w.strip():
+                        line += sgr(col) + w + reset + (reset if rng.random() < 0.2 else "")
+                    else:
+                        line += w
+                out.append(line)
+        elif kind == " ":
+            out.append(" " + text)
+        else:
+            out.append(text)
+    return out
+
+
+SCHEMES = ["per-line", "per-marker", "per-word", "reset0", "ws-error"]
+MODES = [[], ["--side-by-side", "--width", "100"], ["--line-numbers"], ["--color-only"], ["--diff-so-fancy"],
+         ["--diff-highlight"], ["--keep-plus-minus-markers"],
+         ["--side-by-side", "--line-numbers", "--width", "64", "--wrap-max-lines", "3"],
+         ["--hunk-header-style", "omit", "--file-style", "omit"], ["--navigate", "--line-numbers"],
+         ["--word-diff-regex", "."], ["--max-line-distance", "1.0", "--minus-emph-style", "reverse red"]]
+RAW_MODES = [["--file-style", "raw", "--file-decoration-style", "none", "--hunk-header-style", "raw",
+              "--hunk-header-decoration-style", "none", "--commit-style", "raw"],
+             ["--minus-style", "raw", "--plus-style", "raw"]]
+TRUNC_MODE = ["--max-line-length", "50"]
+
+
+def enc_lines(lines):
+    return ("\n".join(lines) + "\n").encode()
+
+
+def strip_py(b):
+    """Independent stripping of CSI / OSC sequences (oracle side)."""
+    return OSC_RE.sub(b"", CSI_RE.sub(b"", b))
+
+
+def run_pair(ctx, args, plain, coloured):
+    a = ctx.run_delta(["--no-gitconfig"] + args, enc_lines(plain))
+    b = ctx.run_delta(["--no-gitconfig"] + args, enc_lines(coloured))
+    return a, b
+
+
+def first_diff_row(a, b, raw_ok=None):
+    la, lb = a.split(b"\n"), b.split(b"\n")
+    for i in range(max(len(la), len(lb))):
+        x = la[i] if i < len(la) else None
+        y = lb[i] if i < len(lb) else None
+        if x != y:
+            if raw_ok and x in raw_ok and y == raw_ok[x]:
+                continue
+            return i, x, y
+    return None
+
+
+_RAW_CACHE = {}
+
+
+def raw_kinds_of_mode(ctx, mode):
+    """Which header elements are raw-styled in this mode (asked from delta itself: --show-config)."""
+    key = tuple(mode)
+    if key not in _RAW_CACHE:
+        rc, out, _ = ctx.run_delta(["--no-gitconfig"] + list(mode) + ["--show-config"], b"")
+        txt = CSI_RE.sub(b"", out).decode("utf-8", "replace")
+        kinds = set()
+        for opt, kind in (("commit-style", "commit"), ("file-style", "meta"), ("hunk-header-style", "hunk")):
+            m = re.search(r"^\s*%s\s*=\s*(.*)$" % re.escape(opt), txt, re.M)
+            if m and m.group(1).strip().split()[:1] == ["raw"]:
+                kinds.add(kind)
+        _RAW_CACHE[key] = kinds
+    return _RAW_CACHE[key]
+
+
+def binary_case_default(ctx, rep, case):
+    """stdout(coloured) == stdout(plain) in a non-raw mode. `case`: rows, scheme, mode, colour seed."""
+    import random
+    rows = [tuple(r) for r in case["rows"]]
+    plain = [k + t if k in (" ", "-", "+") else t for k, t in rows]
+    coloured = colour_rows(rows, case["scheme"], random.Random(case["cseed"]))
+    (rc1, o1, e1), (rc2, o2, e2) = run_pair(ctx, case["mode"], plain, coloured)
+    n_esc = sum(c.count(ESC) for c, (k, _) in zip(coloured, rows) if k in ("-", "+"))
+    rep.case(key=("bin", case["scheme"], tuple(case["mode"]), sha(repr(rows))[:12]), nontrivial=n_esc > 0,
+             sample=dict(op="binary coloured-vs-plain", scheme=case["scheme"], mode=case["mode"], first_lines=coloured[:8]))
+    rep.count("binary:scheme=" + case["scheme"])
+    rep.count("binary:mode=" + " ".join(case["mode"])[:40])
+    if rc1 != 0 or rc2 != 0 or rc1 != rc2:
+        rep.violation("binary:exit-status", f"delta exit status {rc1}/{rc2} on plain/coloured input",
+                      dict(kind="binary", sub="default", stderr=(e1 + e2)[-400:].decode("utf-8", "replace"), **case))
+        return
+    # rows of raw-styled elements keep the input colouring by design: with the default
+    # `commit-style = raw` that is the commit line, which must then appear exactly as it came in
+    raw_kinds = raw_kinds_of_mode(ctx, case["mode"])
+    raw_ok = {enc_lines([p])[:-1]: enc_lines([c])[:-1] for p, c, (k, _) in zip(plain, coloured, rows) if k in raw_kinds}
+    d = first_diff_row(o1, o2, raw_ok)
+    if d is not None:
+        sig = "coloured-vs-plain:" + case["scheme"]
+        if "--max-line-length" in case["mode"] and d and d[1] is not None and d[2] is not None:
+            tp, tc = strip_py(d[1]).decode("utf-8", "replace"), strip_py(d[2]).decode("utf-8", "replace")
+            if "→" in tp and "→" in tc and len(tc.rstrip()) > len(tp.rstrip()):
+                sig = "truncate:text-after-cut"
+        rep.violation(sig, "output for git-coloured input differs from output for the uncoloured input",
+                      dict(kind="binary", sub="default", row=d[0] if d else None,
+                           plain_row=repr(d[1]) if d else None, coloured_row=repr(d[2]) if d else None, **case))
+
+
+def binary_case_raw(ctx, rep, case):
+    """Raw-styled elements keep the input colouring; everything else is unchanged."""
+    import random
+    rows = [tuple(r) for r in case["rows"]]
+    plain = [k + t if k in (" ", "-", "+") else t for k, t in rows]
+    coloured = colour_rows(rows, case["scheme"], random.Random(case["cseed"]))
+    (rc1, o1, e1), (rc2, o2, e2) = run_pair(ctx, case["mode"], plain, coloured)
+    rep.case(key=("raw", case["scheme"], tuple(case["mode"]), sha(repr(rows))[:12]), nontrivial=True,
+             sample=dict(op="binary raw styles", scheme=case["scheme"], mode=case["mode"]))
+    rep.count("binary:raw-mode")
+    if rc1 != 0 or rc2 != 0:
+        rep.violation("binary:exit-status", f"delta exit status {rc1}/{rc2}",
+                      dict(kind="binary", sub="raw", **case))
+        return
+    if "--file-style" in case["mode"]:
+        # header elements are raw: same text, and every coloured header line appears verbatim
+        if strip_py(o1) != strip_py(o2):
+            rep.violation("raw-headers:text-differs", "raw header styles: visible text differs between coloured and plain input",
+                          dict(kind="binary", sub="raw", **case))
+        out_lines = set(o2.split(b"\n"))
+        for (k, _), c in zip(rows, coloured):
+            if k in ("meta", "commit", "hunk") and c.encode() not in out_lines:
+                rep.violation("raw-headers:colouring-lost", "a raw-styled header line did not keep its input colouring",
+                              dict(kind="binary", sub="raw", line=c, **case))
+                break
+    else:
+        # minus/plus raw: the coloured run shows the input colours on those lines
+        if strip_py(o1) != strip_py(o2):
+            rep.violation("raw-lines:text-differs", "raw minus/plus styles: visible text differs between coloured and plain input",
+                          dict(kind="binary", sub="raw", **case))
+            return
+        want = {"-": ("p", 1), "+": ("p", 2)}
+        decoded = [decode_cells(l) for l in o2.split(b"\n")]
+        for k, t in rows:
+            if k in ("-", "+") and len(t.strip()) >= 3 and "\t" not in t:
+                word = t.split()[0]
+                hit = False
+                for cells in decoded:
+                    txt = "".join(c for c, _ in cells)
+                    j = txt.find(word)
+                    if j >= 0 and any(r[1] == want[k] for _, r in cells[j:j + len(word)]):
+                        hit = True
+                        break
+                if not hit:
+                    rep.violation("raw-lines:colouring-lost", "a raw-styled changed line did not keep its input colour",
+                                  dict(kind="binary", sub="raw", line=k + t, **case))
+                    break
+
+
+MOVED_MODES = [[], ["--side-by-side", "--width", "120"], ["--line-numbers"], ["--keep-plus-minus-markers"]]
+MAP = "bold purple => red \"#330000\", bold cyan => blue \"#003300\""
+
+
+def binary_case_moved(ctx, rep, case):
+    """A +/- line coloured with rendition R (not git's plain red/green) is shown with exactly R."""
+    params, kind, form, mode = case["params"], case["kind"], case["form"], case["mode"]
+    word = "mv" + sha(params + kind)[:6] + "q"
+    body = word + " tail"
+    if form == "per-line":
+        ml = sgr(params) + kind + body + sgr("")
+    else:
+        ml = sgr(params) + kind + sgr("") + sgr(params) + body + sgr("")
+    other = "+" if kind == "-" else "-"
+    lines = ["diff --git a/m.txt b/m.txt", "index 1..2 100644", "--- a/m.txt", "+++ b/m.txt", "@@ -1,3 +1,3 @@",
+             " ctx", ml, sgr("31" if other == "-" else "32") + other + "unrelated" + sgr(""), " ctx2"]
+    args = ["--no-gitconfig"] + mode + (["--map-styles", MAP] if case.get("map") else [])
+    rc, out, err = ctx.run_delta(args, enc_lines(lines))
+    want = apply_sgr(Rend(), parse_params(params))
+    if case.get("map"):
+        # the two mapped styles (equality key: bold + magenta/cyan, named or palette 5/6)
+        if want.key() == ((True,) + (False,) * 7, ("p", 5), None):
+            want = Rend(); want.fg = ("p", 1); want.bg = ("r", 0x33, 0, 0)
+        elif want.key() == ((True,) + (False,) * 7, ("p", 6), None):
+            want = Rend(); want.fg = ("p", 4); want.bg = ("r", 0, 0x33, 0)
+    rep.case(key=("moved", params, kind, form, tuple(mode), bool(case.get("map"))), nontrivial=True,
+             sample=dict(op="binary moved-line colours", params=params, line=ml, mode=mode))
+    rep.count("binary:moved")
+    if rc != 0:
+        rep.violation("binary:exit-status", f"delta exit status {rc}", dict(kind="binary", sub="moved", **case))
+        return
+    got = None
+    for l in out.split(b"\n"):
+        cells = decode_cells(l)
+        txt = "".join(c for c, _ in cells)
+        j = txt.find(word)
+        if j >= 0:
+            got = {r for _, r in cells[j:j + len(body)]}
+            break
+    if got != {want.key()}:
+        rep.violation("moved-colours:" + ("mapped" if case.get("map") else re.sub(r"\d+", "N", params)[:24]),
+                      "a moved-line colour is not shown with exactly the input rendition",
+                      dict(kind="binary", sub="moved", want=want.enc(), got=repr(got), **case))
+
+
+def moved_params(rng):
+    items = [gen_supported_item(rng) for _ in range(rng.randint(1, 3))]
+    return ";".join(items)
+
+
+def binary_cases(ctx):
+    rng = ctx.rng
+    cases = []
+    nd = ctx.n(36, 1200)
+    for d in range(nd):
+        rows = gen_diff(rng)
+        for scheme in SCHEMES:
+            for mode in rng.sample(MODES, ctx.n(2, 4)):
+                cases.append(("default", dict(rows=rows, scheme=scheme, mode=mode, cseed=rng.randint(0, 1 << 30))))
+        cases.append(("raw", dict(rows=rows, scheme=rng.choice(SCHEMES[:2]), mode=rng.choice(RAW_MODES),
+                                  cseed=rng.randint(0, 1 << 30))))
+    for d in range(ctx.n(10, 300)):
+        rows = gen_diff(rng, long_lines=True, commit=False)
+        for scheme in ("per-line", "per-word", "per-marker"):
+            cases.append(("default", dict(rows=rows, scheme=scheme, mode=TRUNC_MODE + rng.choice([[], ["--side-by-side"]]),
+                                          cseed=rng.randint(0, 1 << 30))))
+    # moved-line colours: every palette number, every attribute, random RGB / combinations
+    singles = [str(n) for n in [1, 2, 3, 4, 5, 7, 8, 9]] + [f"38;5;{n}" for n in range(256)] + [f"48;5;{n}" for n in range(256)]
+    singles += [str(n) for n in list(range(30, 38)) + list(range(40, 48)) + list(range(90, 98)) + list(range(100, 108))]
+    if ctx.quick():
+        singles = [p for i, p in enumerate(singles) if i % 4 == d % 4 or len(p) <= 3]
+    for p in singles + [moved_params(rng) for _ in range(ctx.n(80, 3000))]:
+        kind = rng.choice("-+")
+        if p in ("31", "32") and ((kind == "-") == (p == "31")):
+            kind = "+" if kind == "-" else "-"   # git's own colour for that side is not a moved colour
+        cases.append(("moved", dict(params=p, kind=kind, form=rng.choice(["per-line", "per-marker"]),
+                                    mode=rng.choice(MOVED_MODES))))
+    for p in ["1;35", "1;36", "1;38;5;5", "35;1", "1;38;5;6", "1;34", "35", "1;35;4"]:
+        for kind in "-+":
+            cases.append(("moved", dict(params=p, kind=kind, form="per-line", mode=[], map=True)))
+    return cases
+
+
+def binary_one(ctx, rep, sub, case):
+    if sub == "default":
+        binary_case_default(ctx, rep, case)
+    elif sub == "raw":
+        binary_case_raw(ctx, rep, case)
+    else:
+        binary_case_moved(ctx, rep, case)
+
+
 def binary_run(ctx, rep):
-    pass
+    cases = binary_cases(ctx)
+    import threading
+    lock = threading.Lock()
+
+    class Shim:
+        """Serialise Report updates from worker threads."""
+        def __getattr__(self, name):
+            f = getattr(rep, name)
+            def g(*a, **k):
+                with lock:
+                    return f(*a, **k)
+            return g
+    shim = Shim()
+    parallel_map(lambda sc: binary_one(ctx, shim, sc[0], sc[1]), cases)
 
 
 def binary_replay(ctx, rep, case):
-    pass
+    c = {k: v for k, v in case.items() if k not in ("kind", "sub", "row", "plain_row", "coloured_row", "stderr", "want", "got", "line")}
+    binary_one(ctx, rep, case.get("sub", "default"), c)
 
 
 def run(ctx, rep):
